@@ -589,9 +589,14 @@ func main() {
 	}
 	ev := evidence{PropertyID: prop, Tier: *tier, Seed: *seedF, Level: info.Level, Coverage: cov,
 		Assumptions: info.Assume, WallS: wall, Violations: newViol}
-	_ = os.MkdirAll(filepath.Join(verifDir, "evidence"), 0755)
+	evDir := filepath.Join(verifDir, "evidence")
+	if os.Getenv("VERIF_REPO") != "" {
+		// not a run against /repo itself (seeded change / background snapshot): never the committed evidence
+		evDir = filepath.Join(verifDir, "out", "evidence-other-tree")
+	}
+	_ = os.MkdirAll(evDir, 0755)
 	eb, _ := json.MarshalIndent(ev, "", " ")
-	_ = os.WriteFile(filepath.Join(verifDir, "evidence", prop+".json"), eb, 0644)
+	_ = os.WriteFile(filepath.Join(evDir, prop+".json"), eb, 0644)
 
 	fmt.Printf("%s tier=%s seed=%d runs=%d evaluations=%d distinct=%d wall=%.1fs\n", prop, *tier, *seedF, agg.Runs, agg.Evals, len(distinct), wall)
 	for _, vd := range verdicts {
